@@ -349,7 +349,10 @@ def r5_stale_shape(ctx):
     f(ctx)
 
 
-from .c07 import r2_operands_encoded as _assigned_values_encoded      # item assignment re-targets the value to the array's encoding first
+def _assigned_values_encoded(ctx):
+    from .c07 import r2_operands_encoded        # item assignment and comparison re-target the other operand to the array's encoding first
+    with ctx.only("__setitem__", "_set_data_range", "_parse_ufunc_inputs", "__array_ufunc__"):
+        r2_operands_encoded(ctx)
 
 
 def r6_encoding_identity(ctx):
